@@ -108,4 +108,6 @@ package scorch
 //@   loop 0: invariant tfrShape(i) && tfrCursor(i) && i.segmentOffset >= old(i.segmentOffset) && i.gstarted == old(i.gstarted) && i.glast == old(i.glast) && rv != nil && i.snapshot == old(i.snapshot) && i.iterators == old(i.iterators)
 //@   loop 0: invariant !i.updateBytesRead && !i.includeFreq && !i.includeNorm && !i.includeTermVectors
 //@   loop 0: invariant implies(old(i.segmentOffset) < len(i.iterators) && old(i.iterators[i.segmentOffset].pdone) && i.segmentOffset == old(i.segmentOffset), i.iterators[i.segmentOffset].pdone)
+//@   loop 0: invariant implies(i.segmentOffset < len(i.iterators), i.snapshot.offsets[i.segmentOffset] >= i.snapshot.offsets[old(i.segmentOffset)])
+//@   loop 0: invariant implies(i.segmentOffset < len(i.iterators) && i.segmentOffset > old(i.segmentOffset), i.snapshot.offsets[i.segmentOffset] >= i.snapshot.offsets[old(i.segmentOffset)+1])
 //@   loop 0: decreases len(i.iterators) - i.segmentOffset
